@@ -12,10 +12,13 @@ theorem):
 Fixed upstream and now proved positively: the replayed clock honours `speed` (afacad0; no `T = D` hypothesis
 any more, `spInst` / `slowInst` are positive examples) and the batched checker is the conjunction of the
 row-wise checkers for ANY capacities (0be4e8c; `checkBatch_eq_all`).
+`check_iff` characterises the accepted set EXACTLY (`Spec.Mtvrp.Accepted` = `Feasible` with precisely the three
+omissions), so soundness and completeness up to the three findings are one theorem; `check_iff_feasible` is the
+resulting equivalence with `Feasible` when none of the three omissions can matter.
 `check_complete_partial` / `check_sound_partial` hold for every feature valuation (all 16 variants), any speed
 and every action list of any length.
 -/
-import Rl4co.Proofs.MtvrpChecker
+import Rl4co.Proofs.MtvrpAccepted
 
 namespace Rl4co.Mtvrp
 open Rl4co.Spec.Mtvrp
@@ -233,6 +236,97 @@ example : checkBatch [(capRow 8 6, [1, 0]), (capRow 4 2, [1, 0])] = true := by
   have h1 : check (capRow 8 6) [1, 0] = true := check_of_parts sortedTest_1 (by decide)
   have h2 : check (capRow 4 2) [1, 0] = true := check_of_parts sortedTest_1 (by decide)
   simp [h1, h2]
+
+/-- **C06 (MTVRP), the accepted set, exactly.**  On a well-formed instance that passes the checker's static data
+asserts (non-negative distances, `D 0 0 = T 0 0 = 0`), `check_solution_validity` accepts an action list IF AND ONLY IF
+it is `Accepted`: every customer exactly once, both capacities respected on every route, and length / clock fine on
+every route — where, unlike `Feasible`, the linehaul/backhaul order is not looked at, the depot deadline also binds
+open routes, and the trailing route's way back is not looked at.  So the checker is sound and complete up to exactly
+the three known omissions, for every feature valuation, any speed, every action list. -/
+theorem check_iff (i : Inst) (hwf : wf i = true) (hstat : checkStatic i = true) (hD : ∀ a b, 0 ≤ i.D a b)
+    (h00 : i.D 0 0 = 0) (hT00 : i.T 0 0 = 0) (as : List Nat) : check i as = true ↔ Accepted i as := by
+  have hlim := checkStatic_limit hstat
+  have hl0 := (checkStatic_node hstat 0 (by omega)).1
+  have hne := routes_ne_nil as
+  constructor
+  · intro h
+    simp only [check, checkWith, Bool.and_eq_true, hstat, and_true] at h
+    obtain ⟨⟨⟨hsort, hrep⟩, hcL⟩, hcB⟩ := h
+    obtain ⟨hrange, honce⟩ := (sortedTest_iff i.n as).1 hsort
+    obtain ⟨r1, rs1, h1⟩ := routes_cons_exists as
+    have hacc := (accR_iff_routes i hlim hl0 h00 hT00 (routes as) hne).1
+      ((replay_iff i hstat hD as 0 0 0 hrange hlim).1 hrep)
+    have hL := c1_sound i.cap i.dL (wf_depot hwf).1 as 0 hcL r1 rs1 h1
+    have hB := c1_sound i.cap i.dB (wf_depot hwf).2 as 0 hcB r1 rs1 h1
+    have loads : ∀ r ∈ routes as, r ≠ [] → (r.map i.dL).sum ≤ i.cap ∧ (r.map i.dB).sum ≤ i.cap := by
+      intro r hr hrne
+      rw [h1] at hr
+      rcases List.mem_cons.mp hr with e | e
+      · subst e; have := hL.1 hrne; have := hB.1 hrne; omega
+      · exact ⟨hL.2 r e hrne, hB.2 r e hrne⟩
+    refine ⟨hrange, honce, ?_, ?_⟩
+    · intro r hr hrne
+      have hc := hacc.1 r hr hrne
+      have hl := loads r (mem_of_dropLast _ r hr) hrne
+      exact ⟨hl.1, hl.2, by simpa [within, routeDist, ClosedC] using hc.1, hc.2⟩
+    · intro r hr hrne
+      have hc := hacc.2 r hr hrne
+      have hl := loads r (mem_of_last _ r hr) hrne
+      exact ⟨hl.1, hl.2, by simpa [within, TrailC] using hc.1, hc.2⟩
+  · intro h
+    simp only [check, checkWith, Bool.and_eq_true, hstat, and_true]
+    have loads : ∀ r ∈ routes as, (r.map i.dL).sum ≤ i.cap ∧ (r.map i.dB).sum ≤ i.cap := by
+      intro r hr
+      by_cases hrne : r = []
+      · subst hrne; simp [wf_cap hwf]
+      · rcases mem_dropLast_or_last _ r hr with e | e
+        · exact ⟨(h.closed r e hrne).loadL, (h.closed r e hrne).loadB⟩
+        · exact ⟨(h.trail r e hrne).loadL, (h.trail r e hrne).loadB⟩
+    refine ⟨⟨⟨(sortedTest_iff i.n as).2 ⟨h.range, h.once⟩, ?_⟩, ?_⟩, ?_⟩
+    · apply (replay_iff i hstat hD as 0 0 0 h.range hlim).2
+      apply (accR_iff_routes i hlim hl0 h00 hT00 (routes as) hne).2
+      refine ⟨fun r hr hrne => ?_, fun r hr hrne => ?_⟩
+      · have hc := h.closed r hr hrne
+        exact ⟨by simpa [within, routeDist] using hc.dist, hc.time⟩
+      · have hc := h.trail r hr hrne
+        exact ⟨by simpa [within] using hc.dist, hc.time⟩
+    · apply c1_complete i.n i.cap i.dL (wf_cap hwf) (wf_depot hwf).1 (fun k hk => (wf_dem hwf k (by omega)).1) as 0
+        h.range
+      intro r rs hrs
+      exact ⟨by have := (loads r (by rw [hrs]; simp)).1; omega,
+        fun r' hr' => (loads r' (by rw [hrs]; exact List.mem_cons_of_mem _ hr')).1⟩
+    · apply c1_complete i.n i.cap i.dB (wf_cap hwf) (wf_depot hwf).2 (fun k hk => (wf_dem hwf k (by omega)).2.1) as 0
+        h.range
+      intro r rs hrs
+      exact ⟨by have := (loads r (by rw [hrs]; simp)).2; omega,
+        fun r' hr' => (loads r' (by rw [hrs]; exact List.mem_cons_of_mem _ hr')).2⟩
+
+
+/-- **C06 corollary**: when the three omissions cannot matter (routes keep linehauls before backhauls, the list ends
+at the depot or routes are open, and for open routes the depot stays open after the deadlines) the checker decides
+feasibility exactly. -/
+theorem check_iff_feasible (i : Inst) (hwf : wf i = true) (hstat : checkStatic i = true) (hD : ∀ a b, 0 ≤ i.D a b)
+    (h00 : i.D 0 0 = 0) (hT00 : i.T 0 0 = 0)
+    (hslack : i.openR = true → ∀ j, 1 ≤ j → j ≤ i.n → slackOk i j = true)
+    (as : List Nat) (hord : ∀ r ∈ routes as, Ordered i r) (hend : i.openR = true ∨ endsAtDepot as = true) :
+    check i as = true ↔ Feasible i as :=
+  ⟨check_sound_partial i hwf as hord hend, check_complete_partial i hwf hstat hD h00 hT00 hslack as⟩
+
+/-- … and then `Accepted` and `Feasible` coincide -/
+theorem accepted_iff_feasible (i : Inst) (hwf : wf i = true) (hstat : checkStatic i = true) (hD : ∀ a b, 0 ≤ i.D a b)
+    (h00 : i.D 0 0 = 0) (hT00 : i.T 0 0 = 0)
+    (hslack : i.openR = true → ∀ j, 1 ≤ j → j ≤ i.n → slackOk i j = true)
+    (as : List Nat) (hord : ∀ r ∈ routes as, Ordered i r) (hend : i.openR = true ∨ endsAtDepot as = true) :
+    Accepted i as ↔ Feasible i as := by
+  rw [← check_iff i hwf hstat hD h00 hT00 as]
+  exact check_iff_feasible i hwf hstat hD h00 hT00 hslack as hord hend
+
+/-- non-vacuity of `check_iff`: its hypotheses hold for `exInst`, and `[1, 2, 0]` is accepted -/
+example : (∀ a b, 0 ≤ exInst.D a b) ∧ exInst.D 0 0 = 0 ∧ exInst.T 0 0 = 0 :=
+  ⟨by intro a b; simp only [exInst]; split <;> omega, by decide, by decide⟩
+example : Accepted exInst [1, 2, 0] :=
+  (check_iff exInst (by decide) (by decide) (by intro a b; simp only [exInst]; split <;> omega) (by decide) (by decide)
+    [1, 2, 0]).1 (check_of_parts sortedTest_2 (by decide))
 
 /-- non-vacuity of the partial theorems: `exInst` satisfies all their hypotheses and `[1, 2, 0]` is feasible -/
 example : wf exInst = true ∧ checkStatic exInst = true ∧ Feasible exInst [1, 2, 0] ∧ endsAtDepot [1, 2, 0] = true :=
